@@ -67,6 +67,45 @@ FIXED = [
 ]
 
 
+# kernels that execute the SAME statement kinds (+, len, [], *, comparison) on operands of different types: interpreters resolve the
+# implementation of a statement by its kind AND the types of its operands
+TYPED = [
+    ("add-bare-ilists", "(a: ilist.IList, b: ilist.IList)", """
+    c = a + b
+    g = grid.from_positions([0.0, 1.0, 3.0], [0.0])
+    action.set_loc(g)
+    action.turn_on(c, action.ALL)
+    i = 0
+    for i in range(len(c)):
+        action.move(grid.shift(g, 1.0 * c[i], 0.5))
+    action.turn_off(action.ALL, [0])
+""", "LISTS"),
+    ("add-floats", "(x: float, y: float)", """
+    g = grid.from_positions([x + 1.0, x + y + 2.5], [y * 2.0])
+    action.set_loc(g)
+    action.turn_on(action.ALL, [0])
+    action.move(grid.shift(g, x + 1.0, y))
+    action.turn_off(action.ALL, [0])
+""", (0.5, 1.5)),
+    ("add-ints-len-tuple", "(n: int, m: int)", """
+    t = (n, m, n + m)
+    g = grid.from_positions([0.0, 2.0], [0.0])
+    action.set_loc(g)
+    i = 0
+    for i in range(len(t) + n + 1):
+        action.move(grid.shift(g, 1.0, 1.0 * (t[2] + i)))
+    action.turn_on([t[0] * 0, 1], action.ALL)
+""", (1, 2)),
+    ("getitem-grid-and-typed-list", "(a: ilist.IList[int, Any], x: float)", """
+    z = spec.get_static_trap(zone_id="traps")
+    g = z[0:2, a[0]]
+    action.set_loc(g)
+    action.turn_on(a + [1], [0])
+    action.move(grid.shift(g, x + x, 1.0))
+""", "TYPEDLIST"),
+]
+
+
 _METHODS = {}      # one Method per source text: calls of one kernel with different arguments share its statements
 
 
@@ -182,6 +221,17 @@ def run(ctx):
     for h in range(ctx.pick(40, 400)):
         hist = [ctx.rng.randrange(len(sel_items)) for _ in range(ctx.rng.randint(2, 6))]
         cases.append(run_history(ctx, sel_items, hist, S, "selector-forms"))
+    # statement kinds shared over operand types: every order of up to three of the kernels above on one instance, with failing calls mixed in
+    targs = {"LISTS": (ilist.IList([0]), ilist.IList([2])), "TYPEDLIST": (ilist.IList([0]), 0.75)}
+    typed = [Item(n, f"@tweezer\ndef main{sig}:{body}", targs.get(a, a) if isinstance(a, str) else a, S) for n, sig, body, a in TYPED]
+    for it in typed:
+        ctx.hist("typed_item_outcome", f"{it.name}: {'path' if it.fresh is not None else 'raises'}")
+        if it.fresh is None or not it.usable:
+            ctx.obligation("the typed-operand kernels trace on a fresh instance", False, it.name)
+    typed_pool = typed + [fixed[3], fixed[4]]
+    for n in (2, 3):
+        for hist in itertools.permutations(range(len(typed_pool)), n):
+            cases.append(run_history(ctx, typed_pool, list(hist), S, "typed-operands"))
     # a long history: many interpreted statements in total on one instance (any per-instance budget or accumulation shows up here)
     long_item = Item("long-loop", "@tweezer\ndef main(n: int):" + LONG_BODY, (ctx.pick(9000, 30000),), S)
     short_item = fixed[0]
